@@ -66,6 +66,7 @@ class Ctx:
         else:
             cons = slice_constraints(list(self.pc) + list(self.axioms), extra + list(focus or []))
         allc = list(cons) + extra
+        self.model_vars = None if noslice else set().union(*[free_vars(x) for x in allc]) if allc else set()
         tmo = timeout_ms or self.timeout_ms
         r = z3.unknown
         self.model = None
@@ -1396,10 +1397,23 @@ class PathResult:
 
 
 def _model_inputs(c, model):
+    """values of the declared inputs.  The model comes from a *sliced* query; inputs outside the
+    slice are completed from a model of the full path condition (constraint independence: the
+    two variable sets are disjoint, so the union is a model of everything)."""
     out = {}
+    mv = getattr(c, 'model_vars', None)
+    base = None
     for n, z in c.inputs.items():
         try:
-            out[n] = _num(model.eval(z, model_completion=True))
+            if mv is None or n in mv:
+                out[n] = _num(model.eval(z, model_completion=True))
+            else:
+                if base is None:
+                    keepm, keepv = c.model, c.model_vars
+                    r = c.check(want_model=True, noslice=True)
+                    base = c.model if r == z3.sat else False
+                    c.model, c.model_vars = keepm, keepv
+                out[n] = _num(base.eval(z, model_completion=True)) if base else None
         except Abort:
             out[n] = None
     return out
